@@ -21,13 +21,18 @@ def classify(exc):
     return 'leak:' + type(exc).__name__
 
 
+NOMINAL = {'der': (True, 0), 'cer': (False, 1000)}
+
+
 def impl_encode(codec, t, v, defMode=True, maxChunk=0, obj=None):
     """-> ('ok', bytes) | ('err', class)"""
     try:
         if obj is None:
             obj = gen.build_value(t, v)
         kw = {}
-        if codec == 'ber':
+        if codec == 'ber' or (defMode, maxChunk) != NOMINAL.get(codec):
+            # the canonical encoders fix their modes themselves; options are handed to them only when a caller's
+            # foreign options are being tried (they must not change the output)
             kw = dict(defMode=defMode, maxChunkSize=maxChunk)
         return ('ok', ENC[codec].encode(obj, **kw))
     except RecursionError:
